@@ -4,6 +4,7 @@ import (
 	"encoding/json"
 	"fmt"
 	"testing"
+	"time"
 
 	"github.com/fxamacker/cbor"
 	"github.com/privacybydesign/gabi/big"
@@ -449,6 +450,75 @@ func execC10Bubble(r *kernel.Run, s C10Spec) {
 		}
 	}
 
+	// --- another chain under the SAME key (one issuer key signs the accumulators of all its credential
+	// types) at the witness's own index, signed later: authentic by signature, but not this witness's
+	// accumulator. Only the witness is judged (Update.Verify rightly accepts the message): whatever
+	// Update returns, the witness must still be valid for an accumulator of its own chain.
+	if wanted(s.OnlyFault, "same-key-other-chain-same-index") {
+		sra, err := kernel.NewRevAuthority(key)
+		if err != nil {
+			panic(err)
+		}
+		wi := int(wits[s.WitAt].SignedAccumulator.Accumulator.Index)
+		for sra.Head() < wi {
+			o, err := revocation.RandomWitness(key.Sk, sra.Accs[sra.Head()])
+			if err != nil {
+				panic(err)
+			}
+			if err := sra.Revoke(o.E); err != nil {
+				panic(err)
+			}
+		}
+		time.Sleep(2 * time.Hour)
+		if err := sra.Resign(wi); err != nil {
+			panic(err)
+		}
+		for _, withEvents := range []bool{false, true} {
+			from := wi + 1
+			if withEvents {
+				from = wi
+			}
+			fu, err := sra.Update(from, wi)
+			if err != nil {
+				panic(err)
+			}
+			b := mustJSON(fu)
+			r.Fault("substitution")
+			r.Eval(1)
+			u, _ := fromJSON(b)()
+			wt := freshWitness()
+			var uerr error
+			if p, fr := guardFrame(func() { uerr = wt.Update(pk, u) }); p != "" {
+				r.Violate("C10:panic:Witness.Update:"+fr, map[string]any{"fault": "same-key-other-chain-same-index"}, "Witness.Update panics: %s", p)
+				continue
+			}
+			if verr := wt.Verify(pk); verr != nil {
+				r.Violate("C10:witness-invalid-after-accepted-update", map[string]any{"fault": "same-key-other-chain-same-index"},
+					"an update of another chain under the same key (same index %d, signed later, events=%v) returned %v and left the witness invalid: %v", wi, withEvents, uerr, verr)
+			} else {
+				r.Probe("other-chain-update-harmless")
+			}
+		}
+	}
+	// --- one decoded message object first verified under the key it was signed with (a verifier serving
+	// several issuers), then offered to this key's receivers
+	if wanted(s.OnlyFault, "object-verified-under-other-key-first") && ora.Head() >= 0 {
+		t2 := min(s.T, ora.Head())
+		ou, err := ora.Update(min(s.S, t2), t2)
+		if err == nil {
+			b := mustJSON(ou)
+			receive("object-verified-under-other-key-first", "substitution", func() (*revocation.Update, error) {
+				u := &revocation.Update{}
+				if err := json.Unmarshal(b, u); err != nil {
+					return nil, err
+				}
+				if _, err := u.Verify(okey.Pk); err != nil {
+					return nil, err
+				}
+				return u, nil
+			})
+		}
+	}
 	// --- Prepend: older events (possibly corrupted) prepended to an honest, verified update
 	if s.S >= 1 && wanted(s.OnlyFault, "prepend") || len(s.OnlyFault) > 0 && s.S >= 1 {
 		older := revocation.NewEventList(evs(ra, 0, s.S-1)...)
@@ -509,6 +579,41 @@ func execC10Bubble(r *kernel.Run, s C10Spec) {
 		}
 		fel := revocation.NewEventList(evs(ora, 0, s.S-1)...)
 		try("prepend:foreign-events", mustJSON(fel), true)
+		// indices at the edge of the integer type (the generic catalogue stops at 2^62)
+		for _, idx := range []string{"18446744073709551615", "18446744073709551614", "9223372036854775808", "9223372036854775807"} {
+			t2 := kernel.Set(kernel.Clone(otree), kernel.Path{"i"}, jsonNumber(idx))
+			try("prepend:index="+idx, kernel.Encode(t2), false)
+		}
+	}
+	// --- Prepend onto an update without events (a legitimate message: just the current signed accumulator)
+	// and onto an update that was decoded but never verified
+	if wanted(s.OnlyFault, "prepend:onto-eventless-update") || wanted(s.OnlyFault, "prepend:onto-unverified-update") {
+		for _, verified := range []bool{true, false} {
+			id := map[bool]string{true: "prepend:onto-eventless-update", false: "prepend:onto-unverified-update"}[verified]
+			if !wanted(s.OnlyFault, id) {
+				continue
+			}
+			var base *revocation.Update
+			if verified {
+				eu, err := ra.Update(s.T+1, s.T)
+				if err != nil {
+					panic(err)
+				}
+				base, _ = fromJSON(mustJSON(eu))()
+				if _, err := base.Verify(pk); err != nil {
+					panic(err)
+				}
+			} else {
+				base, _ = fromJSON(honestJSON)()
+			}
+			el := &revocation.EventList{}
+			mustUnmarshal(mustJSON(revocation.NewEventList(evs(ra, 0, min(s.T, ra.Head()))...)), el)
+			r.Fault("tamper-field:prepend")
+			r.Eval(1)
+			if p, fr := guardFrame(func() { _ = base.Prepend(el) }); p != "" {
+				r.Violate("C10:panic:Update.Prepend:"+fr, map[string]any{"fault": id}, "%s: Prepend panics: %s", id, p)
+			}
+		}
 	}
 	r.Sample(s)
 }
